@@ -175,8 +175,15 @@ def inject(tu_rel, injections, scratch):
             piece = src[fs:ts]
             if piece.count('{') != piece.count('}'):
                 raise Undecided('extraction break: unbalanced braces in the lines extracted from %s (%r .. %r)' % (inj['function'], inj['from'], inj['to']))
-            head = MARK_O + '\nvoid %s(void) {\n%s\nswitch (instruction) {\n' % (inj['name'], inj['text'])
-            tail = '}\n}\n' + MARK_C + '\n'
+            # wrap=switch (default): one-case switch for `case X:` blocks; wrap=block: plain braces for a run of statements.
+            # ret= gives the return type of the generated function (the copied lines may contain `return expr;`), tail= a
+            # statement executed when the copied lines fall through.
+            ret_t = inj.get('ret', 'void')
+            if inj.get('wrap', 'switch') == 'block':
+                head = MARK_O + '\n%s %s(void) {\n%s\n{\n' % (ret_t, inj['name'], inj['text'])
+            else:
+                head = MARK_O + '\n%s %s(void) {\n%s\nswitch (instruction) {\n' % (ret_t, inj['name'], inj['text'])
+            tail = '}\n%s\n}\n' % inj.get('tail', '') + MARK_C + '\n'
             first_line = src.count('\n', 0, fs) + 1
             # ghost statements injected into the copied lines (other /*@inject blocks of this harness) are copied with them
             inner = sorted([x for x in inserts if fs <= x[0] < ts and len(x) < 3], key=lambda x: x[0])
